@@ -252,7 +252,7 @@ PLANS["C18"] = dict(
         hf_mc("tokinit", extra=dict(Features=["tokinit", "transfer", "allow"], Amts=[1, 3]), depth=(3, 4))],
     hunt=[hf_hunt("tok", extra=dict(Features=["core", "transfer", "allow", "tokinit"]))],
     sim=[hf_sim("tok", extra=dict(Features=["core", "transfer", "allow", "tokinit"]))],
-    drive=[dict(name="tokens", menu=menu(MENU_HUB, items={"allow_b": 5, "allow_st": 5, "from_b": 6, "from_st": 6, "transfer_b": 4, "transfer_st": 4, "tokinit": 1}),
+    drive=[dict(name="tokens", menu=menu(MENU_HUB, items={"allow_b": 5, "allow_st": 5, "from_b": 6, "from_st": 6, "transfer_b": 4, "transfer_st": 4, "tokinit": 1, "disp_hub": 2}),
                 runs=(150, 4000), len=40, consts=dict(MaxBatch=8))])
 
 DISP = dict(FundAmts=[0, 1, 7, 30], Prices=["D1", "D075", "D03", "D1000", "D0001"], Rates=["D0", "D005", "D03", "D1"],
